@@ -43,16 +43,18 @@ type c10Exec struct {
 // c10Spec describes a document as root blocks (Markdown text of each root) so that
 // reference blocks can be cut out of the simple-mode output.
 type c10Spec struct {
-	name   string
-	op     string
-	roots  []string // Markdown of each root block
-	prefix string   // text before the first root (blank lines)
-	exts   []string
-	pre    map[string]byte
-	strict bool
-	lines  []int // number of output lines of each root in text mode (nodes after merging)
-	fm     *model.Fmt4
-	fsFail int // fail the k-th file-system call (both modes): only the error verdict is compared
+	name      string
+	op        string
+	roots     []string // Markdown of each root block
+	prefix    string   // text before the first root (blank lines)
+	exts      []string
+	pre       map[string]byte
+	strict    bool
+	lines     []int // number of output lines of each root in text mode (nodes after merging)
+	fm        *model.Fmt4
+	fsFail    int    // fail the k-th file-system call (both modes): only the error verdict is compared
+	fsErrno   string // what the failing call reports ("" = EIO)
+	fsPersist bool   // every call from the k-th on fails
 }
 
 func (s *c10Spec) doc() string { return s.prefix + strings.Join(s.roots, "") }
@@ -245,6 +247,7 @@ func c10Scenario(sp *c10Spec, bound int, workers map[string]int, pols []int) *Sc
 	}
 	d := NewDrv(sp.op, sp.doc())
 	d.Exts, d.Pre, d.Strict, d.Fmt, d.FSFailAt = sp.exts, sp.pre, sp.strict, sp.fm, sp.fsFail
+	d.FSErrno, d.FSPersist = sp.fsErrno, sp.fsPersist
 	ref := &c10Ref{}
 	return &Scenario{
 		Name: "c10/" + sp.name + "/" + sp.op, Prop: "C10", Workers: workers, Bound: bound, Policies: pols,
@@ -631,6 +634,47 @@ func init() {
 				add(d, op, 1, w2, nil)
 			}
 		}
+		// size thresholds under the scheduler: a root with K children next to the powers of two (a stage that fans the
+		// children of a big root out to helpers, a per-node index that appears at 64 children) and a chain of 130 levels,
+		// each next to a small second root; one worker per stage and two
+		for _, K := range []int{63, 64, 65, 66, 129} {
+			var a strings.Builder
+			a.WriteString("- big\n")
+			for i := 0; i < K; i++ {
+				fmt.Fprintf(&a, "  - k%03d\n", i)
+				if i == 0 || i == K-1 {
+					a.WriteString("    - g\n")
+				}
+			}
+			d := docT{fmt.Sprintf("wide-root-%d", K), []string{a.String(), "- small\n  - s\n"}, []int{K + 3, 2}, ""}
+			for _, op := range []string{"out-text", "walk", "out-dry"} {
+				b := 0
+				if K == 65 && op != "out-dry" {
+					b = 1
+				}
+				add(d, op, b, w2, nil)
+				sp := &c10Spec{name: d.name + "/w1", op: op, roots: d.roots, lines: d.lines}
+				out = append(out, c10Scenario(sp, b, w1only, pols))
+			}
+		}
+		{
+			var a strings.Builder
+			for l := 0; l < 130; l++ {
+				fmt.Fprintf(&a, "%s- n%d\n", strings.Repeat("\t", l), l)
+			}
+			a.WriteString("\t- back\n")
+			d := docT{"deep-root-130", []string{a.String(), "- small\n\t- s\n"}, []int{131, 2}, ""}
+			for _, op := range []string{"out-text", "walk"} {
+				add(d, op, 0, w2, nil)
+			}
+		}
+		// white-space-only lines of other kinds than blanks and tabs inside and between root blocks
+		{
+			d := docT{"exotic-blank-lines", []string{"- a\n\u3000\n  - b\n\f\n", "\u00a0\n- c\n\v\n  - d\n \u2028\n  - e\n"}, []int{2, 3}, ""}
+			for _, op := range []string{"out-text", "walk", "out-json", "mkdir"} {
+				add(d, op, k1, w2, nil)
+			}
+		}
 		// custom branch strings (equal and unequal widths, empty connector) together with the massive option
 		for fi, fm := range []model.Fmt4{
 			{LastDirect: "`--", LastIndirect: "    ", MidDirect: "+--", MidIndirect: ":   "},
@@ -646,6 +690,21 @@ func init() {
 		for j := 1; j <= 8; j++ {
 			j := j
 			add(docs[0], "mkdir", k1, w2, func(s *c10Spec) { s.name = fmt.Sprintf("two/fsfail%d", j); s.fsFail = j; s.exts = []string{"e"} })
+		}
+		// other kinds of failure (the call reports "exists", "too many open files", "no space"; a resource that stays
+		// exhausted: every call from the k-th on fails): massive mode errs iff simple mode errs; base schedules only
+		for j := 1; j <= 8; j++ {
+			for _, kind := range []struct {
+				errno   string
+				persist bool
+			}{{"EEXIST", false}, {"EMFILE", false}, {"EMFILE", true}, {"ENOSPC", true}, {"EACCES", false}} {
+				j, kind := j, kind
+				add(docs[0], "mkdir", 0, w2, func(s *c10Spec) {
+					s.name = fmt.Sprintf("two/fsfail%d-%s-persist=%v", j, kind.errno, kind.persist)
+					s.fsFail, s.fsErrno, s.fsPersist = j, kind.errno, kind.persist
+					s.exts = []string{"e"}
+				})
+			}
 		}
 		// mkdir where a root exists beforehand: simple mode creates nothing at all
 		add(docs[0], "mkdir", k1, w2, func(s *c10Spec) { s.name = "two-second-exists"; s.pre = map[string]byte{"c": 'd'} })
